@@ -13,6 +13,7 @@ Brief(r) == [id |-> r.id, origin |-> r.origin, fmt |-> r.fmt, tf |-> r.tf, tc |-
              levels |-> SetToSeq(Levels(r.tiles)), write_ok |-> r.write_ok, write_err |-> r.write_err,
              open_err |-> (IF r.opened.ok = 1 THEN "" ELSE r.opened.err), choices |-> r.choices,
              decode_err |-> (IF r.decoded.skip = 1 \/ r.decoded.ok = 1 THEN "" ELSE r.decoded.err),
+             sparse |-> (IF "sparse" \in DOMAIN r THEN r.sparse ELSE 0),
              tiles_head |-> SubSeq(r.tiles, 1, IF Len(r.tiles) < 8 THEN Len(r.tiles) ELSE 8)]
 
 BadStreams(r) ==
